@@ -3213,9 +3213,509 @@ def family_reach():
             'problems': list(r.problems) + list(prim.problems)}
 
 
+# ====================================================================== family 'betw'
+
+class BetwX:
+    """expression / statement mapping for betweenness_bin (Model/CoreIRBetw.lean: Ex, Stmt)"""
+
+    def __init__(self):
+        self.scalars = set()
+
+    def ex(self, node):
+        if isinstance(node, ast.Constant) and type(node.value) is int and node.value >= 0:
+            return '(.lit %d)' % node.value
+        if is_np(node, 'inf'):
+            return '.infLit'
+        if isinstance(node, ast.Name):
+            return ('(.scal %s)' if node.id in self.scalars else '(.ref %s)') % q(node.id)
+        if isinstance(node, ast.BinOp):
+            op = {ast.Add: 'add', ast.Sub: 'sub', ast.Mult: 'mul', ast.Div: 'div'}.get(type(node.op))
+            if op:
+                return '(.%s %s %s)' % (op, self.ex(node.left), self.ex(node.right))
+        if isinstance(node, ast.Compare) and len(node.ops) == 1:
+            op = {ast.Eq: 'eq', ast.NotEq: 'ne'}.get(type(node.ops[0]))
+            if op:
+                return '(.%s %s %s)' % (op, self.ex(node.left), self.ex(node.comparators[0]))
+        if isinstance(node, ast.Attribute) and node.attr == 'T':
+            return '(.tr %s)' % self.ex(node.value)
+        if isinstance(node, ast.Call):
+            f = node.func
+            if isinstance(f, ast.Attribute) and f.attr == 'copy' and not node.args and not node.keywords:
+                return self.ex(f.value)
+            a = np_call(node, 'array', 1)
+            if (a and len(node.keywords) == 1 and isinstance(kw(node, 'dtype'), ast.Name) and kw(node, 'dtype').id == 'float'):
+                return '(.asFloat %s)' % self.ex(a[0])
+            a = np_call(node, 'eye', 1)
+            if a and not node.keywords and isinstance(a[0], ast.Name) and a[0].id in self.scalars:
+                return '(.eye %s)' % q(a[0].id)
+            a = np_call(node, 'zeros', 1)
+            if (a and not node.keywords and isinstance(a[0], ast.Tuple) and len(a[0].elts) == 2
+                    and all(isinstance(x, ast.Name) and x.id in self.scalars for x in a[0].elts)):
+                return '(.zeros %s %s)' % (q(a[0].elts[0].id), q(a[0].elts[1].id))
+            a = np_call(node, 'dot', 2)
+            if a and not node.keywords:
+                return '(.dot %s %s)' % (self.ex(a[0]), self.ex(a[1]))
+        raise Unrec(node, 'unrecognised expression %s' % src_of(node))
+
+    def stmt(self, st):
+        if isinstance(st, ast.Assign) and len(st.targets) == 1:
+            t, v = st.targets[0], st.value
+            if isinstance(t, ast.Name):
+                if const_int(v) is not None:
+                    self.scalars.add(t.id)
+                    return '.setScal %s %s' % (q(t.id), lint(const_int(v)))
+                if (isinstance(v, ast.Call) and isinstance(v.func, ast.Name) and v.func.id == 'len' and len(v.args) == 1
+                        and not v.keywords and isinstance(v.args[0], ast.Name) and v.args[0].id not in self.scalars):
+                    self.scalars.add(t.id)
+                    return '.setLen %s %s' % (q(t.id), q(v.args[0].id))
+                if (isinstance(v, ast.BinOp) and isinstance(v.op, ast.Sub) and isinstance(v.left, ast.Name)
+                        and v.left.id in self.scalars and const_int(v.right) is not None):
+                    self.scalars.add(t.id)
+                    return '.letSub %s %s %s' % (q(t.id), q(v.left.id), lint(const_int(v.right)))
+                e = self.ex(v)
+                self.scalars.discard(t.id)
+                return '.bind %s (%s)' % (q(t.id), e[1:-1] if e.startswith('(') else e)
+            if isinstance(t, ast.Subscript) and isinstance(t.value, ast.Name) and t.value.id not in self.scalars:
+                if isinstance(t.slice, ast.Compare):
+                    return '.setMask %s %s %s' % (q(t.value.id), self.ex(t.slice), self.ex(v))
+                a = np_call(t.slice, 'where', 1)
+                if a and not t.slice.keywords and isinstance(a[0], ast.Name) and a[0].id not in self.scalars:
+                    return '.setWhere %s %s %s' % (q(t.value.id), q(a[0].id), self.ex(v))
+        if isinstance(st, ast.AugAssign) and isinstance(st.op, ast.Add) and isinstance(st.target, ast.Name):
+            if st.target.id in self.scalars:
+                if const_int(st.value) is not None:
+                    return '.incr %s %s' % (q(st.target.id), lint(const_int(st.value)))
+            else:
+                return '.augAdd %s %s' % (q(st.target.id), self.ex(st.value))
+        raise Unrec(st, 'unrecognised statement %s' % src_of(st))
+
+
+class EbcX:
+    """expression / statement mapping for edge_betweenness_bin (Model/CoreIREbc.lean: SEx, Stmt, Cond); names are sorted into
+    scalars / float vectors / integer vectors / matrices / index arrays by the statement that binds them"""
+
+    def __init__(self, param):
+        self.sort = {param: 'mat'}
+
+    def is_(self, node, sort):
+        return isinstance(node, ast.Name) and self.sort.get(node.id) == sort
+
+    def sex(self, node):
+        z = const_int(node)
+        if z is not None:
+            return '(.lit %s)' % lint(z)
+        if self.is_(node, 'sc'):
+            return '(.var %s)' % q(node.id)
+        if isinstance(node, ast.BinOp):
+            op = {ast.Add: 'add', ast.Sub: 'sub', ast.Mult: 'mul', ast.Div: 'div'}.get(type(node.op))
+            if op:
+                return '(.%s %s %s)' % (op, self.sex(node.left), self.sex(node.right))
+        if (isinstance(node, ast.Subscript) and self.is_(node.value, 'vec')
+                and not isinstance(node.slice, (ast.Tuple, ast.Slice))):
+            return '(.at1 %s %s)' % (q(node.value.id), self.sex(node.slice))
+        raise Unrec(node, 'unrecognised scalar expression %s' % src_of(node))
+
+    def row_of(self, node):
+        """m[i, :] -> (m, i)"""
+        if (isinstance(node, ast.Subscript) and self.is_(node.value, 'mat') and isinstance(node.slice, ast.Tuple)
+                and len(node.slice.elts) == 2 and full_slice(node.slice.elts[1])):
+            return node.value.id, node.slice.elts[0]
+        return None
+
+    def cond(self, node):
+        a = np_call(node, 'any', 1)
+        if a and not node.keywords:
+            b = np_call(a[0], 'logical_not', 1)
+            if b and not a[0].keywords and self.is_(b[0], 'vec'):
+                return '(.anyNot %s)' % q(b[0].id)
+            raise Unrec(node, 'unrecognised test %s' % src_of(node))
+        return '(.truthy %s)' % self.sex(node)
+
+    def zeros(self, v):
+        """np.zeros((d,)) / np.zeros((d,), dtype=int) / np.zeros((d1, d2)) -> (constructor, dims, sort)"""
+        a = np_call(v, 'zeros', 1)
+        if not a or not isinstance(a[0], ast.Tuple) or not all(self.is_(x, 'sc') for x in a[0].elts):
+            return None
+        dims = [x.id for x in a[0].elts]
+        if len(dims) == 1 and not v.keywords:
+            return 'zeros1', dims, 'vec'
+        if (len(dims) == 1 and len(v.keywords) == 1 and isinstance(kw(v, 'dtype'), ast.Name) and kw(v, 'dtype').id == 'int'):
+            return 'zeros1i', dims, 'ivec'
+        if len(dims) == 2 and not v.keywords:
+            return 'zeros2', dims, 'mat'
+        return None
+
+    def stmt(self, st):
+        if isinstance(st, ast.Assign) and len(st.targets) == 1:
+            t, v = st.targets[0], st.value
+            if isinstance(t, ast.Name):
+                x = t.id
+                if (isinstance(v, ast.Call) and isinstance(v.func, ast.Name) and v.func.id == 'len' and len(v.args) == 1
+                        and not v.keywords and self.is_(v.args[0], 'mat')):
+                    self.sort[x] = 'sc'
+                    return '.setLen %s %s' % (q(x), q(v.args[0].id))
+                z = self.zeros(v)
+                if z:
+                    self.sort[x] = z[2]
+                    return '.%s %s %s' % (z[0], q(x), ' '.join(q(d) for d in z[1]))
+                if (isinstance(v, ast.Call) and isinstance(v.func, ast.Attribute) and v.func.attr == 'copy' and not v.args
+                        and not v.keywords and self.is_(v.func.value, 'mat')):
+                    self.sort[x] = 'mat'
+                    return '.copy %s %s' % (q(x), q(v.func.value.id))
+                a = np_call(v, 'array', 1)
+                if a and not v.keywords and isinstance(a[0], ast.List) and len(a[0].elts) == 1:
+                    e = self.sex(a[0].elts[0])
+                    self.sort[x] = 'lst'
+                    return '.single %s %s' % (q(x), e)
+                e = self.sex(v)
+                self.sort[x] = 'sc'
+                return '.letS %s %s' % (q(x), e)
+            if isinstance(t, ast.Subscript) and isinstance(t.value, ast.Name):
+                m, ix = t.value.id, t.slice
+                if self.sort.get(m) in ('vec', 'ivec') and not isinstance(ix, (ast.Tuple, ast.Slice)):
+                    return '.%s %s %s %s' % ('set1' if self.sort[m] == 'vec' else 'set1i', q(m), self.sex(ix), self.sex(v))
+                if self.sort.get(m) == 'mat' and isinstance(ix, ast.Tuple) and len(ix.elts) == 2:
+                    if full_slice(ix.elts[0]) and self.is_(ix.elts[1], 'lst') and const_int(v) is not None:
+                        return '.clearCols %s %s %s' % (q(m), q(ix.elts[1].id), lint(const_int(v)))
+                    if not any(isinstance(e, ast.Slice) for e in ix.elts):
+                        return '.set2 %s %s %s %s' % (q(m), self.sex(ix.elts[0]), self.sex(ix.elts[1]), self.sex(v))
+            if isinstance(t, ast.Tuple) and len(t.elts) == 1:
+                t0 = t.elts[0]
+                a = np_call(v, 'where', 1)
+                if a and not v.keywords:
+                    if isinstance(t0, ast.Name):
+                        row = self.row_of(a[0])
+                        if row:
+                            e = self.sex(row[1])
+                            self.sort[t0.id] = 'lst'
+                            return '.whereRow %s %s %s' % (q(t0.id), q(row[0]), e)
+                        b = np_call(a[0], 'any', 1)
+                        if (b and len(a[0].keywords) == 1 and const_int(kw(a[0], 'axis')) == 0 and isinstance(b[0], ast.Subscript)
+                                and self.is_(b[0].value, 'mat') and isinstance(b[0].slice, ast.Tuple) and len(b[0].slice.elts) == 2
+                                and self.is_(b[0].slice.elts[0], 'lst') and full_slice(b[0].slice.elts[1])):
+                            l = b[0].slice.elts[0].id
+                            self.sort[t0.id] = 'lst'
+                            return '.whereAnyRows %s %s %s' % (q(t0.id), q(b[0].value.id), q(l))
+                    if (isinstance(t0, ast.Subscript) and self.is_(t0.value, 'ivec') and isinstance(t0.slice, ast.Slice)
+                            and t0.slice.lower is None and t0.slice.step is None and t0.slice.upper is not None):
+                        b = np_call(a[0], 'logical_not', 1)
+                        if b and not a[0].keywords and self.is_(b[0], 'vec'):
+                            return '.fillPrefix %s %s %s' % (q(t0.value.id), self.sex(t0.slice.upper), q(b[0].id))
+        if isinstance(st, ast.AugAssign):
+            t = st.target
+            if isinstance(st.op, ast.Sub) and self.is_(t, 'sc'):
+                return '.subS %s %s' % (q(t.id), self.sex(st.value))
+            if isinstance(st.op, ast.Add) and isinstance(t, ast.Subscript) and isinstance(t.value, ast.Name):
+                m, ix = t.value.id, t.slice
+                if self.sort.get(m) == 'vec' and not isinstance(ix, (ast.Tuple, ast.Slice)):
+                    return '.aug1 %s %s %s' % (q(m), self.sex(ix), self.sex(st.value))
+                if (self.sort.get(m) == 'mat' and isinstance(ix, ast.Tuple) and len(ix.elts) == 2
+                        and not any(isinstance(e, ast.Slice) for e in ix.elts)):
+                    return '.aug2 %s %s %s %s' % (q(m), self.sex(ix.elts[0]), self.sex(ix.elts[1]), self.sex(st.value))
+        raise Unrec(st, 'unrecognised statement %s' % src_of(st))
+
+
+EBC_FIELDS = dict(param=q('?'), pre='[]', srcVar=q('?'), srcN=q('?'), init='[]', front=q('?'), clear='[]', vVar=q('?'), vIter=q('?'),
+                  visit='[]', wVar=q('?'), wIter=q('?'), seenCond='(.truthy (.lit 0))', seen='[]', fresh='[]', next='[]',
+                  fillCond='(.truthy (.lit 0))', fill='[]', mid='[]', bwVar=q('?'), bwVec=q('?'), bwHi='(.lit 0)', acc='[]',
+                  bvVar=q('?'), bvMat=q('?'), bvRow='(.lit 0)', dep='[]', ret0=q('?'), ret1=q('?'))
+EBC_ORDER = ['param', 'pre', 'srcVar', 'srcN', 'init', 'front', 'clear', 'vVar', 'vIter', 'visit', 'wVar', 'wIter', 'seenCond', 'seen',
+             'fresh', 'next', 'fillCond', 'fill', 'mid', 'bwVar', 'bwVec', 'bwHi', 'acc', 'bvVar', 'bvMat', 'bvRow', 'dep', 'ret0', 'ret1']
+
+
+def extract_ebc(fn, path):
+    r = Routine(fn.name, path)
+    r.line = fn.lineno
+    a = fn.args
+    if len(a.args) != 1 or a.vararg or a.kwarg or a.kwonlyargs or a.defaults:
+        r.bad(fn, 'expected exactly one parameter without default')
+    f = dict(EBC_FIELDS)
+    f['param'] = q(a.args[0].arg if a.args else '?')
+    r.fields = f
+    r.counts = {}
+    body = body_wo_doc(fn)
+    r.parts = {'body': lines_of(body)}
+    x = EbcX(a.args[0].arg if a.args else '?')
+
+    def block(key, sts):
+        out = []
+        for st in sts:
+            try:
+                out.append(x.stmt(st))
+            except Unrec as e:
+                r.bad(e.node if hasattr(e.node, 'lineno') else st, e.msg)
+        f[key] = '[' + ',\n      '.join(out) + ']'
+        r.counts[key] = len(sts)
+
+    def guarded(key, fun, node):
+        try:
+            f[key] = fun(node)
+        except Unrec as e:
+            r.bad(e.node if hasattr(e.node, 'lineno') else node, e.msg)
+
+    def shape(node, msg):
+        r.bad(node, msg)
+        return r
+
+    def loop_var(lp, key):
+        if not isinstance(lp.target, ast.Name) or lp.orelse:
+            r.bad(lp, 'unrecognised loop header for %s' % src_of(lp.target))
+            return
+        f[key] = q(lp.target.id)
+        x.sort[lp.target.id] = 'sc'
+
+    # statements, `for u in range(n):`, `return A, b`
+    if (len(body) < 2 or not isinstance(body[-2], ast.For) or not isinstance(body[-1], ast.Return)
+            or any(isinstance(st, (ast.For, ast.While, ast.If)) for st in body[:-2])):
+        return shape(fn, 'expected statements, one `for` loop, `return`')
+    block('pre', body[:-2])
+    src = body[-2]
+    it = src.iter
+    if (isinstance(it, ast.Call) and isinstance(it.func, ast.Name) and it.func.id == 'range' and len(it.args) == 1 and not it.keywords
+            and x.is_(it.args[0], 'sc')):
+        f['srcN'] = q(it.args[0].id)
+    else:
+        r.bad(src, 'unrecognised loop range %s' % src_of(it))
+    loop_var(src, 'srcVar')
+    rv = body[-1].value
+    if (isinstance(rv, ast.Tuple) and len(rv.elts) == 2 and isinstance(rv.elts[0], ast.Name) and isinstance(rv.elts[1], ast.Name)):
+        ret = (rv.elts[0].id, rv.elts[1].id)
+    else:
+        ret = None
+        r.bad(body[-1], 'unrecognised return value %s' % src_of(rv))
+    # body of the source loop: statements, `while`, `if`, statements, `for`
+    sb = src.body
+    wl = [i for i, st in enumerate(sb) if isinstance(st, ast.While)]
+    if (len(wl) != 1 or len(sb) < wl[0] + 3 or not isinstance(sb[wl[0] + 1], ast.If) or not isinstance(sb[-1], ast.For)
+            or any(isinstance(st, (ast.For, ast.While, ast.If)) for st in sb[:wl[0]] + sb[wl[0] + 2:-1])):
+        return shape(src, 'expected statements, `while`, `if`, statements, `for` in the body of the source loop')
+    wi = wl[0]
+    block('init', sb[:wi])
+    w = sb[wi]
+    if (isinstance(w.test, ast.Attribute) and w.test.attr == 'size' and x.is_(w.test.value, 'lst') and not w.orelse):
+        f['front'] = q(w.test.value.id)
+    else:
+        r.bad(w, 'unrecognised loop test %s' % src_of(w.test))
+    fl = [i for i, st in enumerate(w.body) if isinstance(st, ast.For)]
+    if len(fl) != 1 or any(isinstance(st, (ast.While, ast.If)) for st in w.body):
+        return shape(w, 'expected statements, one `for` loop, statements in the body of the `while` loop')
+    block('clear', w.body[:fl[0]])
+    lv = w.body[fl[0]]
+    if x.is_(lv.iter, 'lst'):
+        f['vIter'] = q(lv.iter.id)
+    else:
+        r.bad(lv, 'unrecognised iterable %s' % src_of(lv.iter))
+    loop_var(lv, 'vVar')
+    if (not lv.body or not isinstance(lv.body[-1], ast.For)
+            or any(isinstance(st, (ast.For, ast.While, ast.If)) for st in lv.body[:-1])):
+        return shape(lv, 'expected statements, one `for` loop in the body of the node loop')
+    block('visit', lv.body[:-1])
+    lw = lv.body[-1]
+    if x.is_(lw.iter, 'lst'):
+        f['wIter'] = q(lw.iter.id)
+    else:
+        r.bad(lw, 'unrecognised iterable %s' % src_of(lw.iter))
+    loop_var(lw, 'wVar')
+    if len(lw.body) != 1 or not isinstance(lw.body[0], ast.If) or not lw.body[0].orelse:
+        return shape(lw, 'expected one `if … else …` in the body of the neighbour loop')
+    br = lw.body[0]
+    guarded('seenCond', x.cond, br.test)
+    if any(isinstance(st, (ast.For, ast.While, ast.If)) for st in br.body + br.orelse):
+        return shape(br, 'expected simple statements in both branches')
+    block('seen', br.body)
+    block('fresh', br.orelse)
+    block('next', w.body[fl[0] + 1:])
+    fi = sb[wi + 1]
+    guarded('fillCond', x.cond, fi.test)
+    if fi.orelse or any(isinstance(st, (ast.For, ast.While, ast.If)) for st in fi.body):
+        return shape(fi, 'expected simple statements and no `else`')
+    block('fill', fi.body)
+    block('mid', sb[wi + 2:-1])
+    bw = sb[-1]
+    it = bw.iter
+    if (isinstance(it, ast.Subscript) and x.is_(it.value, 'ivec') and isinstance(it.slice, ast.Slice) and it.slice.lower is None
+            and it.slice.step is None and it.slice.upper is not None):
+        f['bwVec'] = q(it.value.id)
+        guarded('bwHi', x.sex, it.slice.upper)
+    else:
+        r.bad(bw, 'unrecognised iterable %s' % src_of(it))
+    loop_var(bw, 'bwVar')
+    if (not bw.body or not isinstance(bw.body[-1], ast.For)
+            or any(isinstance(st, (ast.For, ast.While, ast.If)) for st in bw.body[:-1])):
+        return shape(bw, 'expected statements, one `for` loop in the body of the back-propagation loop')
+    block('acc', bw.body[:-1])
+    bv = bw.body[-1]
+    it = bv.iter
+    ok = False
+    if isinstance(it, ast.Subscript) and const_int(it.slice) == 0:
+        c = np_call(it.value, 'where', 1)
+        row = x.row_of(c[0]) if c and not it.value.keywords else None
+        if row:
+            f['bvMat'] = q(row[0])
+            guarded('bvRow', x.sex, row[1])
+            ok = True
+    if not ok:
+        r.bad(bv, 'unrecognised iterable %s' % src_of(it))
+    loop_var(bv, 'bvVar')
+    if any(isinstance(st, (ast.For, ast.While, ast.If)) for st in bv.body):
+        return shape(bv, 'expected simple statements in the body of the predecessor loop')
+    block('dep', bv.body)
+    if ret:
+        if x.sort.get(ret[0]) == 'mat' and x.sort.get(ret[1]) == 'vec':
+            f['ret0'], f['ret1'] = q(ret[0]), q(ret[1])
+        else:
+            r.bad(body[-1], 'unrecognised return value %s' % src_of(rv))
+    return r
+
+
+BETW_FIELDS = {'param': q('?'), 'pre': '[]', 'cond': q('?'), 'body': '[]', 'mid': '[]', 'loopVar': q('?'), 'loopHi': q('?'),
+               'loopLo': '0', 'loopStep': '0', 'back': '[]', 'ret': q('?'), 'retAxis': '99'}
+
+
+def extract_betw(fn, path):
+    r = Routine(fn.name, path)
+    r.line = fn.lineno
+    a = fn.args
+    if len(a.args) != 1 or a.vararg or a.kwarg or a.kwonlyargs or a.defaults:
+        r.bad(fn, 'expected exactly one parameter without default')
+    f = dict(BETW_FIELDS)
+    f['param'] = q(a.args[0].arg if a.args else '?')
+    r.fields = f
+    body = body_wo_doc(fn)
+    wl = [i for i, st in enumerate(body) if isinstance(st, ast.While)]
+    fl = [i for i, st in enumerate(body) if isinstance(st, ast.For)]
+    if len(wl) != 1 or len(fl) != 1 or not wl[0] < fl[0] == len(body) - 2 or not isinstance(body[-1], ast.Return):
+        r.bad(fn, 'expected statements, one `while` loop, statements, one `for` loop, `return`')
+        return r
+    x = BetwX()
+
+    def block(sts):
+        out = []
+        for st in sts:
+            try:
+                out.append(x.stmt(st))
+            except Unrec as e:
+                r.bad(e.node if hasattr(e.node, 'lineno') else st, e.msg)
+        return '[' + ',\n      '.join(out) + ']'
+    wi, fi = wl[0], fl[0]
+    f['pre'] = block(body[:wi])
+    w = body[wi]
+    c = np_call(w.test, 'any', 1)
+    if c and not w.test.keywords and isinstance(c[0], ast.Name) and not w.orelse:
+        f['cond'] = q(c[0].id)
+    else:
+        r.bad(w, 'unrecognised loop test %s' % src_of(w.test))
+    f['body'] = block(w.body)
+    f['mid'] = block(body[wi + 1:fi])
+    lp = body[fi]
+    it = lp.iter
+    if (isinstance(lp.target, ast.Name) and not lp.orelse and isinstance(it, ast.Call) and isinstance(it.func, ast.Name)
+            and it.func.id == 'range' and len(it.args) == 3 and not it.keywords and isinstance(it.args[0], ast.Name)
+            and it.args[0].id in x.scalars and const_int(it.args[1]) is not None and const_int(it.args[2]) is not None):
+        f['loopVar'] = q(lp.target.id)
+        f['loopHi'] = q(it.args[0].id)
+        f['loopLo'] = lint(const_int(it.args[1]))
+        f['loopStep'] = lint(const_int(it.args[2]))
+        x.scalars.add(lp.target.id)
+    else:
+        r.bad(lp, 'unrecognised loop header for %s in %s' % (src_of(lp.target), src_of(it)))
+    f['back'] = block(lp.body)
+    rv = body[-1].value
+    c = np_call(rv, 'sum', 1) if rv is not None else None
+    if (c and isinstance(c[0], ast.Name) and c[0].id not in x.scalars and len(rv.keywords) == 1
+            and const_int(kw(rv, 'axis')) is not None and const_int(kw(rv, 'axis')) >= 0):
+        f['ret'] = q(c[0].id)
+        f['retAxis'] = '%d' % const_int(kw(rv, 'axis'))
+    else:
+        r.bad(body[-1], 'unrecognised return value %s' % src_of(rv))
+    r.parts = {'body': lines_of(body)}
+    r.counts = {'pre': wi, 'body': len(w.body), 'mid': fi - wi - 1, 'back': len(lp.body)}
+    return r
+
+
+def lean_betw(r, path, r2=None):
+    relb = os.path.basename(path)
+    f = r.fields or dict(BETW_FIELDS)
+    a, b = r.parts.get('body', (r.line, r.line))
+    out = ['import BctVerif.Props.CoresBetw',
+           'import BctVerif.Props.CoresEbc',
+           '/-!',
+           '# GENERATED by translate/cores.py (family betw) — do not edit.  Re-emitted from the current source on every check run.',
+           'source: %s' % path,
+           '-/',
+           'set_option linter.unusedTactic false',
+           'set_option linter.unreachableTactic false',
+           'namespace Bct.Gen.CoresBetw',
+           'open Bct Bct.Between Bct.CoreIR Bct.CoreIR.Betw Bct.Cores.Betw',
+           '']
+    for p in r.problems:
+        out.append('-- NOT RECOGNISED: ' + p.replace('\n', ' '))
+    out.append('/-- `betweenness_bin` (%s:%d) -/' % (relb, r.line))
+    out.append('def ir_betweenness_bin : BetwIR :=\n  { recognised := %s, origins := %s,\n    param := %s,\n    pre := %s,\n    cond := %s,\n'
+               '    body := %s,\n    mid := %s,\n    loopVar := %s, loopHi := %s, loopLo := %s, loopStep := %s,\n    back := %s,\n'
+               '    ret := %s, retAxis := %s }\n'
+               % ('true' if not r.problems else 'false', lean_origins(r), f['param'], f['pre'], f['cond'], f['body'], f['mid'],
+                  f['loopVar'], f['loopHi'], f['loopLo'], f['loopStep'], f['back'], f['ret'], f['retAxis']))
+    out.append('theorem betweenness_bin_ok : betwOk ir_betweenness_bin = true := by\n  first | decide | fail "betweenness_bin_ok: the statements '
+               'extracted from betweenness_bin (%s:%d-%d) %s"\n' % (relb, a, b, 'were not all recognised by translate/cores.py'
+                                                                      if r.problems else 'are not the expected program'))
+    out.append('theorem betweenness_bin_computes {n : Nat} (G : AMat Nat n) :\n'
+               '    run ir_betweenness_bin (n * n + 2) (emb G) =\n'
+               '      match betweennessBin G with\n'
+               '      | .ok v => some (v.map V.num)\n'
+               '      | .error _ => none :=\n'
+               '  link_betweenness_bin _ betweenness_bin_ok G\n')
+    if r2 is not None:
+        f2 = r2.fields or dict(EBC_FIELDS)
+        a, b = r2.parts.get('body', (r2.line, r2.line))
+        for p in r2.problems:
+            out.append('-- NOT RECOGNISED: ' + p.replace('\n', ' '))
+        out.append('/-- `edge_betweenness_bin` (%s:%d) -/' % (relb, r2.line))
+        out.append('def ir_edge_betweenness_bin : Ebc.EbcIR :=\n  { recognised := %s, origins := %s,\n    %s }\n'
+                   % ('true' if not r2.problems else 'false', lean_origins(r2), ',\n    '.join('%s := %s' % (k, f2[k]) for k in EBC_ORDER)))
+        out.append('theorem edge_betweenness_bin_ok : Ebc.ebcOk ir_edge_betweenness_bin = true := by\n  first | decide | fail '
+                   '"edge_betweenness_bin_ok: the statements extracted from edge_betweenness_bin (%s:%d-%d) %s"\n'
+                   % (relb, a, b, 'were not all recognised by translate/cores.py' if r2.problems else 'are not the expected program'))
+        out.append('theorem edge_betweenness_bin_computes {n : Nat} (G : AMat Nat n) :\n'
+                   '    Ebc.run ir_edge_betweenness_bin (n + 2) (Bct.Cores.Ebc.embM G) =\n'
+                   '      match brandes false G with\n'
+                   '      | .ok r => some r\n'
+                   '      | .error _ => none :=\n'
+                   '  Bct.Cores.Ebc.link_edge_betweenness_bin _ edge_betweenness_bin_ok G\n')
+    out.append('end Bct.Gen.CoresBetw')
+    return '\n'.join(out) + '\n'
+
+
+def family_betw():
+    path = os.path.join(common.REPO, 'bct', 'algorithms', 'centrality.py')
+    fns, err = parse_functions(path)
+    name = 'betweenness_bin'
+    if name not in fns:
+        r = Routine(name, path); r.problems.append('%s: %s' % (name, err or 'function not found in ' + path))
+    else:
+        try:
+            r = extract_betw(fns[name], path)
+            check_header(r, fns[name], fns)
+        except Exception as e:  # noqa — an extractor crash must not look like success
+            r = Routine(name, path); r.problems.append('%s: extractor raised %s: %s' % (name, type(e).__name__, e))
+    name2 = 'edge_betweenness_bin'
+    if name2 not in fns:
+        r2 = Routine(name2, path); r2.problems.append('%s: %s' % (name2, err or 'function not found in ' + path))
+    else:
+        try:
+            r2 = extract_ebc(fns[name2], path)
+            check_header(r2, fns[name2], fns)
+        except Exception as e:  # noqa — an extractor crash must not look like success
+            r2 = Routine(name2, path); r2.problems.append('%s: extractor raised %s: %s' % (name2, type(e).__name__, e))
+    return {'module': 'BctVerif.Gen.CoresBetw', 'file': 'CoresBetw.lean', 'text': lean_betw(r, path, r2), 'sources': [path],
+            'routines': {r.name: dict(getattr(r, 'counts', {}), line=r.line, recognised=not r.problems),
+                         r2.name: dict(getattr(r2, 'counts', {}), line=r2.line, recognised=not r2.problems)},
+            'problems': list(r.problems) + list(r2.problems)}
+
+
 # ====================================================================== entry points
 
-FAMILIES = {'floyd': family_floyd, 'peel': family_peel, 'util': family_util, 'comp': family_comp, 'dijk': family_dijk, 'path': family_path, 'bin': family_bin, 'bfs': family_bfs, 'reach': family_reach}
+FAMILIES = {'floyd': family_floyd, 'peel': family_peel, 'util': family_util, 'comp': family_comp, 'dijk': family_dijk, 'path': family_path, 'bin': family_bin, 'bfs': family_bfs, 'reach': family_reach, 'betw': family_betw}
 
 
 def write_if_changed(path, text):
